@@ -26,6 +26,14 @@ keys   : C17:<file>.<class>:n=<capacity>:construct[:<Exception>]   the class can
               enq-rdy-low (key without suffix: rdy low although not full, nothing else wrong) | enq-rdy-high | deq-rdy-low | deq-rdy-high |
               enq-fire-* | deq-fire-* | wrong-msg | deq-from-empty | count | overflow | unclassified  -- one report per class x deviation
          C17:<file>.<class>:n=<capacity>:model / :exception          ports respect the spec but registers leave the Coq model / simulation raised
+chains : harness/c17_chains.py -- the same queues AS USED through the library's own CL<->RTL adapters (RecvRTL2SendCL,
+         RecvCL2SendRTL, the give->recv And adapter, stream Send/RecvQueueAdapter, StallCL in between) assembled with plain
+         `connect`, and CL producers that keep ONE Bits / bitstruct message object and update it in place (also for every CL
+         queue directly: family cl+reuse).  Judged end to end by the certified stream acceptor (C17_stream_acceptor: accepted
+         stream = delivered stream, keys C17:chain.<chain>[<msg type>].<QueueClass>:n=<k>:stream:<wrong-msg|invented|lost|overflow>)
+         and per RTL queue inside the chain by passive port/register monitors with the full specification (keys
+         C17:chain.<chain>[..]/<file>.<Class>:n=<k>:history...).  The adapters' own ready timing is outside C17's text and is
+         not demanded; the message streams through them are.
 partial: the Bits widths of head/tail/count are not modelled (nat registers + proved bounds); CL `peek` is not driven;
          the T-gen stretch of DESIGN (translating *CtrlRTL automatically) is not done: the concrete models are hand-written
          and tied by the register-level differential replay above.
@@ -110,6 +118,11 @@ class Drv:
     s.after_fresh()
   def after_fresh(s): pass
   def internals(s): return (0, 0, 0, [])
+  keyword = 'history'        # middle part of the violation key ('stream' for end-to-end chain judgements)
+  chain = False
+  replayable = True          # can a history be re-simulated on a fresh instance (for shrinking)?
+  def first_bad(s, hist): return py_spec_first_bad(s.kind, s.n, hist)
+  def deviations(s, hist): return py_deviations(s.kind, s.n, hist)
   def rec(s, rst, we, msg, wd, ein, din, er, dr, ef, df, out, cnt, ints):
     return {'rst': int(rst), 'we': int(we), 'msg': int(msg), 'wd': int(wd), 'ein': int(ein), 'din': int(din),
             'er': None if er is None else int(er), 'dr': None if dr is None else int(dr), 'ef': int(ef), 'df': int(df),
@@ -275,7 +288,34 @@ def make_drivers(tier):
     cls = getattr(C, f'{kind}QueueCL')
     for n in caps:
       drv.append(CLDrv('cl', cls.__name__, kind, n, None, (lambda cls=cls, n=n: CLHarness(cls, n))))
-  return drv, notes
+  # ---- cl_queues.py again, with a producer that keeps ONE message object and updates it in place every cycle
+  # (Bits8 at odd capacities, a two-field bitstruct at even ones) and the chains through the interface adapters
+  import c17_chains
+  chains, MT, Pair = c17_chains.build(sys.modules[__name__])
+  class CLReuseHarness(Component):
+    def construct(s, QT, n, mt):
+      s.dut = QT(num_entries=n); s.mt = mt
+      s.want_enq = 0; s.want_deq = 0; s.msg = 0; s.log = []
+      s.obj = mt.mk(0)
+      @update_once
+      def producer():
+        s.mt.assign(s.obj, s.msg)
+        r = bool(s.dut.enq.rdy()); f = False
+        if s.want_enq and r:
+          s.dut.enq(s.obj); f = True
+        s.log.append(('enq', r, f))
+      @update_once
+      def consumer():
+        r = bool(s.dut.deq.rdy()); f = False; m = 0
+        if s.want_deq and r:
+          m = s.mt.to_int(s.dut.deq()); f = True
+        s.log.append(('deq', r, f, m))
+  for kind in ('Normal', 'Pipe', 'Bypass'):
+    cls = getattr(C, f'{kind}QueueCL')
+    for n in caps:
+      mt = MT(Bits8 if n % 2 else Pair)
+      drv.append(CLDrv(f'cl+reuse[{mt.name}]', cls.__name__, kind, n, None, (lambda cls=cls, n=n, mt=mt: CLReuseHarness(cls, n, mt))))
+  return drv, notes, chains
 
 # ---------------------------------------------------------------------------------------------- Coq terms
 def code(r):
@@ -380,6 +420,7 @@ def shrink(d, hist, find):
   """smallest history (greedy delta debugging by re-simulation on fresh instances) on which find(history) still returns a cycle"""
   bad = find(hist)
   if bad is None: return hist, None
+  if not d.replayable: return hist[:bad + 1], min(bad, len(hist) - 1)
   offers = [(r['rst'], r['we'], r['msg'], r['wd']) for r in hist[:bad + 1]]
   try:
     cur = replay_fresh(d, offers)
@@ -409,10 +450,13 @@ def shrink(d, hist, find):
 
 # ---------------------------------------------------------------------------------------------- main
 def run(ctx):
+  import gc
+  gc.disable()          # millions of small acyclic records are kept alive until the report: generational GC passes only cost time
+  t_run = time.time()
   setup_impl_path()
   quick = ctx.tier == 'quick'
   rng = ctx.rng
-  drivers, notes = make_drivers(ctx.tier)
+  drivers, notes, chains = make_drivers(ctx.tier)
   for x in notes: ctx.note(x)
   depth = 3 if quick else 4
   nrand = 2 if quick else 12
@@ -428,9 +472,10 @@ def run(ctx):
       unsupported.append((d, e)); continue
     # rotations: quick = the wrap boundary only (head at n-1 / n), thorough = every head position
     rots = ([d.n - 1, d.n] if quick else list(range(1, d.n + 2))) if d.n > 1 else []
-    plans = list(exhaustive_wants(d.n, depth, rots, 2 if quick else 3))
-    if not quick and d.n <= 2:    # every offer sequence from the empty queue, depth 5 (n=1) / 6 (n=2)
-      plans += [('exh-deep', [(0, c >> 1, c & 1) for c in seq]) for seq in itertools.product(range(4), repeat=d.n + 4)]
+    light = d.family.startswith('cl+reuse')     # same classes as 'cl' (fully enumerated there); here only the producer differs
+    plans = list(exhaustive_wants(d.n, 2 if light else depth, [] if light else rots, 2 if quick else 3))
+    if not quick and d.n <= 2 and not light:    # every offer sequence of depth 5 from the empty queue
+      plans += [('exh-deep', [(0, c >> 1, c & 1) for c in seq]) for seq in itertools.product(range(4), repeat=5)]
     plans += [('rnd', random_wants(rng, 200, d.has_reset)) for _ in range(nrand)]
     plans = [(tag, wants, mg) for tag, wants in plans] + dup_plans(rng, d, quick)
     for tag, wants, gen in plans:
@@ -447,6 +492,42 @@ def run(ctx):
       key = (d.label, tuple((r['rst'], r['we'], r['wd']) + ((r['msg'],) if tag.startswith('dup') else ()) for r in hist))
       nontrivial = any(r['ef'] for r in hist) and any(r['df'] for r in hist)
       ctx.count(key, nontrivial, cls=f'{d.label}:{tag}')
+  # ---- chains through the library's interface adapters (harness/c17_chains.py): end-to-end streams + per-queue port monitors
+  nchain = 2 if quick else 6
+  clen = 90 if quick else 200
+  for ci, d in enumerate(chains):
+    try:
+      d.fresh()
+    except Exception as e:
+      ctx.violation(f'C17:{d.label}:construct:{type(e).__name__}', f'{d.label}: the chain cannot be built/simulated: {type(e).__name__}: {str(e)[:300]}',
+                    {'chain': d.label, 'error': traceback.format_exc()[-1500:]})
+      continue
+    for k in range(nchain):
+      # alternate distinguishing-counter payloads and duplicate-forcing payloads; offers in bursts; drained at the end
+      gen = mg if (k + ci) % 2 == 0 else DupGen(rng, ALPHABETS[(k + ci) % 4], PATTERNS[(k + ci) % len(PATTERNS)] if k % 3 else None)
+      if isinstance(gen, DupGen) and gen.pattern and max(gen.pattern) >= len(gen.alpha): gen = DupGen(rng, [5, 6, 7], gen.pattern)
+      wants = [(0, we, wd) for _, we, wd in random_wants(rng, clen, False)] + [(0, 0, 1)] * (d.n + 8)
+      marks = [len(m.hist) for m in d.monitors]
+      hist = []
+      d.partial = hist
+      try:
+        for _, we, wd in wants:
+          r = d.cycle(0, we, gen.next(), wd)
+          if r['ef']: gen.accepted()
+          hist.append(r)
+      except Exception as e:
+        ctx.violation(f'C17:{d.label}:exception', f'{d.label}: simulation raised {type(e).__name__}: {str(e)[:200]} after {len(hist)} cycle(s)',
+                      {'chain': d.label, 'error': traceback.format_exc()[-1500:], 'cycles_before_the_exception': hist[-40:]})
+        break
+      cycles += len(hist)
+      tag = 'chain-ctr' if gen is mg else 'chain-dup'
+      cases.append(case_term(d, hist)); meta.append((d, tag, hist))
+      ctx.count((d.label, tuple((r['we'], r['wd'], r['msg']) for r in hist)), any(r['df'] for r in hist), cls=f'{d.label}:{tag}')
+      for m, mark in zip(d.monitors, marks):
+        mh = m.hist[mark:]
+        cases.append(case_term(m, mh)); meta.append((m, tag + '/monitor', mh))
+        ctx.count((m.label, tuple((r['we'], r['wd'], r['msg']) for r in mh)), any(r['df'] for r in mh), cls=f'{m.label}:{tag}')
+  ctx.extra['chain_configurations'] = len(chains)
   ctx.extra['simulated_cycles'] = cycles
   ctx.extra['simulation_s'] = round(time.time() - t_sim, 1)
   t_coq = time.time()
@@ -462,13 +543,14 @@ def run(ctx):
   bad = ctx.coq_bad_indices('hist', IMPORTS, '', CASE_T, cases, 'case_ok c', shard=1500)
   ctx.extra['disagreeing_histories'] = len(bad)
   ctx.extra['coq_replay_s'] = round(time.time() - t_coq, 1)
+  t_rep = time.time()
   # group the disagreeing histories by queue and by KIND of deviation; one shrunk report (and one key) per group
   groups, model_only = {}, {}
   for i in bad:
     d, tag, hist = meta[i]
-    if py_spec_first_bad(d.kind, d.n, hist) is None:
+    if d.first_bad(hist) is None:
       model_only.setdefault(d.label, i); continue
-    kinds = sorted(set(k for _, k in py_deviations(d.kind, d.n, hist))) or ['unclassified']
+    kinds = sorted(set(k for _, k in d.deviations(hist))) or ['unclassified']
     for k in kinds:
       j = groups.get((d.label, k))
       if j is None or len(meta[j][2]) > len(hist): groups[(d.label, k)] = i
@@ -482,9 +564,9 @@ def run(ctx):
   for (label, k), i in sorted(groups.items()):
     d, tag, hist = meta[i]
     if k == 'unclassified':
-      find = lambda h, d=d: py_spec_first_bad(d.kind, d.n, h)
+      find = lambda h, d=d: d.first_bad(h)
     else:
-      find = lambda h, d=d, k=k: first_of_kind(d.kind, d.n, h, k)
+      find = lambda h, d=d, k=k: next((c for c, kk in d.deviations(h) if kk == k), None)
     small, at = shrink(d, hist, find)
     if at is None: small, at = hist, len(hist) - 1
     term = f'({d.mid if d.mid is not None else 0}, {d.kind}, {d.n}, [' + ';'.join(code(r) for r in small) + '])'
@@ -497,19 +579,32 @@ def run(ctx):
       conf = ctx.coq_eval('conf', IMPORTS, '', [f'case_diagnosis {term}'])
       m = re.match(r'\(\s*Some (\d+)', conf[0])
     cq = int(m.group(1)) if m else at
+    offers = [(x['rst'], x['we'], x['msg'], x['wd']) for x in small]
+    if d.chain:
+      acc = [x['msg'] for x in small if x['ef']]; dlv = [x['out'] for x in small if x['df']]
+      ctx.violation(f'C17:{d.label}:stream:{k}',
+                    f'{d.label} [{k}]: the message streams through the chain differ (Coq stream acceptor rejects cycle {cq} of {len(small)}): accepted at the producer = {acc}; '
+                    f'delivered at the consumer = {dlv}; inputs (rst,want_enq,msg shown,want_deq) = {offers[:40]}',
+                    {'chain': d.label, 'bound_on_outstanding': d.n, 'deviation': k, 'plan': tag, 'inputs(rst,want_enq,msg,want_deq)': offers, 'accepted': acc, 'delivered': dlv,
+                     'observed': small, 'coq_first_bad_cycle': conf[0], 'coq_case': term, 'deviations_by_cycle(python classifier)': d.deviations(small),
+                     'original_history_cycles': len(hist)})
+      continue
     exp = ctx.coq_eval('exp', IMPORTS, '', [f'case_expect {term} {cq}%nat'])[0]
-    r = small[cq]
+    r = small[min(cq, len(small) - 1)]
     # the plain ":history" key is reserved for the mildest deviation (enq_rdy low although the queue is not full, nothing else
     # wrong: back-pressure only, contents unaffected); every other kind of deviation carries its own suffix
     key = f'C17:{d.label}:history' + ('' if k == 'enq-rdy-low' else f':{k}')
-    offers = [(x['rst'], x['we'], x['msg'], x['wd']) for x in small]
     ctx.violation(key,
                   f'{d.label} [{k}] leaves the FIFO specification in cycle {cq} of: (rst,want_enq,msg,want_deq) = {offers}; observed there enq_rdy={r["er"]} '
                   f'deq_rdy/val={r["dr"]} enq_fire={r["ef"]} deq_fire={r["df"]} msg={r["out"]} count={r["cnt"]}; the Coq spec expects '
                   f'(enq_rdy,deq_rdy,enq_fire,deq_fire,msg,count,queue) = {exp}',
                   {'queue': d.label, 'kind': d.kind, 'capacity': d.n, 'deviation': k, 'plan': tag, 'offers(rst,want_enq,msg,want_deq)': offers,
                    'observed': small, 'coq_first_bad_cycle(spec, any)': conf[0], 'coq_spec_expects_at_that_cycle': exp, 'coq_case': term,
-                   'deviations_by_cycle(python classifier)': py_deviations(d.kind, d.n, small), 'original_history_cycles': len(hist)})
+                   'deviations_by_cycle(python classifier)': d.deviations(small), 'original_history_cycles': len(hist)})
+  _timing(ctx, t_run, t_rep)
+
+def _timing(ctx, t_run, t_rep):
+  ctx.extra['report_s'] = round(time.time() - t_rep, 1); ctx.extra['run_s'] = round(time.time() - t_run, 1)
 
 def main(ctx):
   ctx.trusted += ['Lib/QueueCheck.v (decoding of the observed-cycle tuples, dispatch to the model replays) and the drivers in harness/c17.py',
@@ -520,6 +615,7 @@ def main(ctx):
     'en/rdy interfaces are driven legally (en only with rdy, found by raising en signals to the fixpoint within the cycle); val/rdy interfaces are driven with arbitrary val/rdy',
     'enrdy_queues.py NormalQueue1RTL/PipeQueue1RTL and valrdy_queues.py 1-entry queues keep `full` in a register without reset and the CL queues never clear their deque: they are exercised without mid-run resets (the property text does not speak about reset)',
     'valrdy_queues.py is loaded with InValRdyIfc/OutValRdyIfc bound to the stream val/rdy interfaces because pymtl3.stdlib.ifcs does not define them in this tree',
+    'chains: the same-cycle ready rules are judged per library queue only (directly driven, and monitored passively inside chains); end to end through adapters/StallCL only the accepted/delivered streams and a bound on outstanding messages are judged; GetRTL2GiveCL cannot be instantiated in this tree (reads s.get.msg, GetIfcRTL has .ret) so no chain goes through it; chains are run without mid-run resets',
     'CL queues: peek() is not driven; NormalQueueCL is checked for the block order the scheduler actually chose (the theorem covers both orders)',
     'message payload: Bits8, 1 symbol bit + counter; entry types other than Bits8 are not exercised']
   import stdlib_gen
@@ -532,6 +628,6 @@ def main(ctx):
     ctx.note('correspondence crashed: ' + traceback.format_exc()[-1500:])
     ctx.violation('C17:harness-crash', f'correspondence could not run: {e!r}', {'traceback': traceback.format_exc()}, found_input=False)
   return ctx.finish(rule='case = one queue class x capacity 1..5 x one offer history starting from the empty queue: (a) exhaustive: prefix (rotate head R times, fill L=0..n) then every '
-                         '(want_enq,want_deq) sequence of depth 3 (quick) / 4 (thorough; plus every sequence of depth n+4 from empty for n<=2), (b) random 200-cycle histories with '
+                         '(want_enq,want_deq) sequence of depth 3 (quick) / 4 (thorough; plus every sequence of depth 5 from empty for n<=2), (b) random 200-cycle histories with '
                          'bursty offer rates and 2% resets, (c) duplicate payloads in flight: every 2-symbol word filling the queue then drained / streamed through, cyclic v,w,v / palindrome / run patterns and random symbols from 1..3-symbol alphabets (incl. 0) under random offer timing; messages otherwise carry a distinguishing counter; distinct = distinct (class, capacity, offer sequence); non-trivial = at least one message accepted '
-                         'and one delivered; every cycle compares rdy/val/fire/msg/count and the internal registers with the Coq spec and concrete model (coqc vm_compute)')
+                         'and one delivered; every cycle compares rdy/val/fire/msg/count and the internal registers with the Coq spec and concrete model (coqc vm_compute); (d) chains through the stdlib interface adapters with reused message objects: random bursty offers + drain, accepted vs delivered streams judged by the Coq stream acceptor, embedded RTL queues monitored and judged by the full spec')
